@@ -349,8 +349,11 @@ class DiscreteDP:
                 self.a_indptr = a_indptr
             else:
                 # Sort indices and elements of R and Q
+                # Give the number of rows explicitly: trailing states
+                # may have no state-action pair
                 sa_ptrs = sp.coo_matrix(
-                    (np.arange(self.num_sa_pairs), (s_indices, a_indices))
+                    (np.arange(self.num_sa_pairs), (s_indices, a_indices)),
+                    shape=(self.num_states, np.max(a_indices)+1)
                 ).tocsr()
                 sa_ptrs.sort_indices()
                 self.a_indices = sa_ptrs.indices
